@@ -65,7 +65,9 @@ theorem exec_exitSeq (K : PCtx) (exitJ : Nat) (wf : K.WFS exitJ) (i : Nat) (a b 
     rw [hr.sp]; exact ofNat_add_W K.sp 2
   have hst : IAm.store K.env mem (mem.read 1 + IAm.W 2) (IAm.W 0) = some (mem.write (K.sp + 2) (IAm.W 0)) := by
     rw [hadr]; exact store_ofNat _ _ _ _ hs1 hs2
-  have s2 := Step.stai (env := K.env) (cfg (i + 0 + 1 + 1) (IAm.W 0) (mem.read 1) mem) io 2 _ h2 hst
+  have hne1 : (mem.read 1 + IAm.W 2).toNat ≠ 1 := by
+    rw [hadr]; exact ofNat_toNat_ne_one _ (by have := wf.sp_ge; omega) hs1
+  have s2 := Step.stai (env := K.env) (cfg (i + 0 + 1 + 1) (IAm.W 0) (mem.read 1) mem) io 2 _ h2 hst hne1
   refine ⟨cfg (i + 0 + 1 + 1 + 1) (IAm.W 0) (mem.read 1) (mem.write (K.sp + 2) (IAm.W 0)), ?_, ?_⟩
   · exact Steps.step _ _ _ _ _ _ s0 (Steps.step _ _ _ _ _ _ s1 (Steps.one s2))
   · apply Exit.svcExit
@@ -190,9 +192,11 @@ theorem execS_assign (fuel : Nat) (n : String) (e : X.Expr) (σ : X.St) (hp : pu
               · rw [hl'] at hv; simp at hv
               · rw [hg'] at hv; simp at hv
         have hloc : ∃ ad, K.loc n = some ad := by
-          by_cases hsc : sym.scope = ""
-          · obtain ⟨j, k, _, _, h3⟩ := wf.var_global n sym hl hsc; exact ⟨_, h3⟩
-          · obtain ⟨_, ad, _, h3⟩ := wf.var_local n sym hl hsc; exact ⟨_, h3⟩
+          apply rep1.locs n
+          unfold IsVar
+          rcases writeName_cases K.xc s σ' n w hw with ⟨o, hl', _⟩ | ⟨hl', hg', _⟩
+          · exact Or.inl ⟨o, hl'⟩
+          · exact Or.inr ⟨hl', hg'⟩
         obtain ⟨ad, hloc⟩ := hloc
         obtain ⟨b2, st2⟩ := exec_assignTail K exitJ wf n sym (i + (K.low c).length) w b' mem' σ.io s ad hl hat.right rep1 hloc
         refine ⟨w, b2, mem'.write ad w, ?_, rep1.assign wf hw hloc⟩
@@ -214,6 +218,263 @@ theorem out_skip (fuel : Nat) (s : X.St) (j : Nat) (a b : Word) (mem : Mem) (hr 
       refine ⟨a, b, mem, ?_, hr.same hs⟩
       rw [hs.2.2.2.1]
       exact Steps.refl _ _
+
+omit wf in
+theorem optStmt_ite (ρ : String → Option Word) (c : X.Expr) (t e : X.Stmt) :
+    optStmt (annotS ρ (.ite c t e)) = .ite (optExpr (annotate ρ c)) (optStmt (annotS ρ t)) (optStmt (annotS ρ e)) := by
+  simp [annotS, optStmt]
+
+theorem execS_ite (fuel : Nat) (c : X.Expr) (t e : X.Stmt) (σ : X.St) (hpc : pureE c = true)
+    (iht : ∀ s, ExecS K exitJ (optStmt (annotS K.ρ t)) s (X.exec fuel K.xc t s))
+    (ihe : ∀ s, ExecS K exitJ (optStmt (annotS K.ρ e)) s (X.exec fuel K.xc e s)) :
+    ExecS K exitJ (optStmt (annotS K.ρ (.ite c t e))) σ (X.exec (fuel + 1) K.xc (.ite c t e) σ) := by
+  intro gs code gs' i a b mem hg hat hr hsz hnl hci
+  rw [optStmt_ite] at hg
+  cases ht : X.tick K.xc σ with
+  | none => unfold X.exec; rw [ht]; trivial
+  | some st =>
+    rw [exec_ite fuel K.xc c t e σ st ht]
+    have hs := tick_same _ _ _ ht
+    cases hev : asBool "condition of if" (X.eval fuel K.xc c st) with
+    | undef w => simp only [Res.bind]; trivial
+    | exit cd s => exact absurd hev (asBool_pure_no_exit K.xc _ fuel c st cd s hpc)
+    | ok w s =>
+      simp only [Res.bind]
+      obtain ⟨hev', hbw⟩ := asBool_ok _ _ _ _ hev
+      have hs2 := eval_pure K.xc _ _ _ _ _ hpc hev'
+      have hio : s.io = σ.io := by rw [hs2.2.2.2.1, hs.2.2.2.1]
+      have hC := expr_pure_correct K wf.toWF fuel c st w s hpc hev'
+      have hrst := hr.same hs
+      rcases genStmt_ite_inv _ _ _ _ _ _ _ hg with ⟨hts, hes, hcc⟩ | ⟨hts, hes, cc, gs1, ct, h1, h2, hcode⟩ |
+          ⟨hts, hes, cc, gs1, ce, h1, h2, hcode⟩ | ⟨hts, hes, cc, gs1, ct, gs2, ce, h1, h2, h3, hcode⟩
+      · -- both branches are skip: no code
+        have htk := (isSkip_iff K.ρ t).mp hts
+        have hek := (isSkip_iff K.ρ e).mp hes
+        rw [pure_noCall K.ρ c hpc] at hcc
+        rcases hcc with ⟨h0, _⟩ | ⟨_, hcode, _⟩
+        · simp at h0
+        · subst hcode
+          have hsk : (if (w == 1) = true then X.exec fuel K.xc t s else X.exec fuel K.xc e s) = X.exec fuel K.xc .skip s := by
+            rw [htk, hek]; split <;> rfl
+          rw [hsk, ← hio]
+          exact out_skip K exitJ wf fuel s _ a b mem ((hr.same hs).same hs2)
+      · -- if c then T else skip
+        have hek := (isSkip_iff K.ρ e).mp hes
+        subst hcode
+        have e2 := genStmt_eff _ _ _ _ _ h2
+        simp only [low_append, List.append_assoc] at hat ⊢
+        have hb : K.low [lBRZ (lab gs.labelCount)] = [.ref 0xA (lab gs.labelCount) true] := rfl
+        have hl : K.low [iLabel (lab gs.labelCount)] = [.label .plain (lab gs.labelCount)] := rfl
+        rw [hb, hl] at hat ⊢
+        have hlab := hat.right.right.right.head
+        simp only [List.length_cons, List.length_nil] at hlab
+        obtain ⟨b1, mem1, st1, rep1⟩ := exec_cond_brz K wf.toWF _ w st hC _ cc gs1 i a b mem σ.io _ _ _ h1
+          hat.left hat.right.head hlab hrst (by have := e2.2.1; omega) hnl (hci.of_eff e2)
+        have rep1s := rep1.same hs2
+        simp only [List.length_append, List.length_cons, List.length_nil]
+        by_cases hw1 : (w == 1) = true
+        · have hw : w = 1 := by simpa using hw1
+          have hne : ¬ w = 0 := by rw [hw]; decide
+          rw [if_neg hne] at st1
+          simp only [hw1, if_true]
+          have e1 := genExpr_eff _ _ _ _ _ _ h1
+          have hT := iht s gs1 ct gs' (i + (K.low cc).length + 1) w b1 mem1 h2
+            (by simpa [Nat.add_assoc] using hat.right.right.left) rep1s hsz (by have := e1.1; simp only at this; omega) hci
+          rw [hio] at hT
+          have hpost := hT.post (j' := i + ((K.low cc).length + (1 + ((K.low ct).length + 1))))
+            (fun a' b' m' io' => by
+              have := step_label K _ _ _ hlab a' b' m' io'
+              simpa [Nat.add_assoc] using this)
+          exact hpost.pre st1
+        · have hw : w = 0 := isBool_ne_one w hbw (by simpa using hw1)
+          rw [if_pos hw] at st1
+          simp only [hw1, Bool.false_eq_true, if_false]
+          rw [hek, ← hio]
+          have := out_skip K exitJ wf fuel s (i + ((K.low cc).length + (1 + ((K.low ct).length + 1)))) w b1 mem1 rep1s
+          refine this.pre ?_
+          rw [hio]
+          refine st1.trans ?_
+          have := step_label K _ _ _ hlab w b1 mem1 σ.io
+          simpa [Nat.add_assoc] using this
+      · -- if c then skip else E
+        have htk := (isSkip_iff K.ρ t).mp hts
+        subst hcode
+        have e2 := genStmt_eff _ _ _ _ _ h2
+        simp only [low_append, List.append_assoc] at hat ⊢
+        have hb : K.low [lBRZ (lab gs.labelCount), lBR (lab (gs.labelCount + 1)), iLabel (lab gs.labelCount)]
+            = [.ref 0xA (lab gs.labelCount) true, .ref 0x9 (lab (gs.labelCount + 1)) true, .label .plain (lab gs.labelCount)] := rfl
+        have hl : K.low [iLabel (lab (gs.labelCount + 1))] = [.label .plain (lab (gs.labelCount + 1))] := rfl
+        rw [hb, hl] at hat ⊢
+        have hbrz := hat.right.left.get 0 _ rfl
+        have hbr := hat.right.left.get 1 _ rfl
+        have helse := hat.right.left.get 2 _ rfl
+        have hend := hat.right.right.right.head
+        simp only [List.length_cons, List.length_nil, Nat.add_zero] at hbrz hbr helse hend
+        obtain ⟨b1, mem1, st1, rep1⟩ := exec_cond_brz K wf.toWF _ w st hC _ cc gs1 i a b mem σ.io _ _ _ h1
+          hat.left hbrz helse hrst (by have := e2.2.1; omega) hnl (hci.of_eff e2)
+        have rep1s := rep1.same hs2
+        simp only [List.length_append, List.length_cons, List.length_nil]
+        by_cases hw1 : (w == 1) = true
+        · have hw : w = 1 := by simpa using hw1
+          have hne : ¬ w = 0 := by rw [hw]; decide
+          rw [if_neg hne] at st1
+          simp only [hw1, if_true]
+          rw [htk, ← hio]
+          have := out_skip K exitJ wf fuel s (i + ((K.low cc).length + (0 + 1 + 1 + 1 + ((K.low ce).length + (0 + 1))))) w b1 mem1 rep1s
+          refine this.pre ?_
+          rw [hio]
+          refine st1.trans ?_
+          have sA := step_br K wf.toWF _ _ _ _ hbr hend w b1 mem1 σ.io
+          have sB := step_label K _ _ _ hend w b1 mem1 σ.io
+          have := sA.trans sB
+          simpa [Nat.add_assoc] using this
+        · have hw : w = 0 := isBool_ne_one w hbw (by simpa using hw1)
+          rw [if_pos hw] at st1
+          simp only [hw1, Bool.false_eq_true, if_false]
+          have e1 := genExpr_eff _ _ _ _ _ _ h1
+          have sL := step_label K _ _ _ helse w b1 mem1 σ.io
+          have hE := ihe s gs1 ce gs' (i + (K.low cc).length + 2 + 1) w b1 mem1 h2
+            (by simpa [Nat.add_assoc] using hat.right.right.left) rep1s hsz (by have := e1.1; simp only at this; omega) hci
+          rw [hio] at hE
+          have hpost := hE.post (j' := i + ((K.low cc).length + (0 + 1 + 1 + 1 + ((K.low ce).length + (0 + 1)))))
+            (fun a' b' m' io' => by
+              have := step_label K _ _ _ hend a' b' m' io'
+              simpa [Nat.add_assoc] using this)
+          exact hpost.pre (st1.trans sL)
+      · -- if c then T else E
+        subst hcode
+        have e3 := genStmt_eff _ _ _ _ _ h3
+        have e2 := genStmt_eff _ _ _ _ _ h2
+        simp only [low_append, List.append_assoc] at hat ⊢
+        have hb : K.low [lBRZ (lab gs.labelCount)] = [.ref 0xA (lab gs.labelCount) true] := rfl
+        have hm : K.low [lBR (lab (gs.labelCount + 1)), iLabel (lab gs.labelCount)]
+            = [.ref 0x9 (lab (gs.labelCount + 1)) true, .label .plain (lab gs.labelCount)] := rfl
+        have hl : K.low [iLabel (lab (gs.labelCount + 1))] = [.label .plain (lab (gs.labelCount + 1))] := rfl
+        rw [hb, hm, hl] at hat ⊢
+        have hbrz := hat.right.head
+        have hbr := hat.right.right.right.left.get 0 _ rfl
+        have helse := hat.right.right.right.left.get 1 _ rfl
+        have hend := hat.right.right.right.right.right.head
+        simp only [List.length_cons, List.length_nil, Nat.add_zero] at hbr helse hend
+        obtain ⟨b1, mem1, st1, rep1⟩ := exec_cond_brz K wf.toWF _ w st hC _ cc gs1 i a b mem σ.io _ _ _ h1
+          hat.left hbrz helse hrst (by have := e2.2.1; have := e3.2.1; omega) hnl ((hci.of_eff e3).of_eff e2)
+        have rep1s := rep1.same hs2
+        have e1 := genExpr_eff _ _ _ _ _ _ h1
+        simp only [List.length_append, List.length_cons, List.length_nil]
+        by_cases hw1 : (w == 1) = true
+        · have hw : w = 1 := by simpa using hw1
+          have hne : ¬ w = 0 := by rw [hw]; decide
+          rw [if_neg hne] at st1
+          simp only [hw1, if_true]
+          have hT := iht s gs1 ct gs2 (i + (K.low cc).length + 1) w b1 mem1 h2
+            (by simpa [Nat.add_assoc] using hat.right.right.left) rep1s (by have := e3.2.1; omega)
+            (by have := e1.1; simp only at this; omega) (hci.of_eff e3)
+          rw [hio] at hT
+          have hpost := hT.post (j' := i + ((K.low cc).length + (0 + 1 + ((K.low ct).length + (0 + 1 + 1 + ((K.low ce).length + (0 + 1)))))))
+            (fun a' b' m' io' => by
+              have sA := step_br K wf.toWF _ _ _ _ hbr hend a' b' m' io'
+              have sB := step_label K _ _ _ hend a' b' m' io'
+              have := sA.trans sB
+              simpa [Nat.add_assoc] using this)
+          exact hpost.pre st1
+        · have hw : w = 0 := isBool_ne_one w hbw (by simpa using hw1)
+          rw [if_pos hw] at st1
+          simp only [hw1, Bool.false_eq_true, if_false]
+          have sL := step_label K _ _ _ helse w b1 mem1 σ.io
+          have hE := ihe s gs2 ce gs' (i + (K.low cc).length + (0 + 1) + (K.low ct).length + 1 + 1) w b1 mem1 h3
+            (by simpa [Nat.add_assoc] using hat.right.right.right.right.left) rep1s hsz
+            (by have := e1.1; have := e2.1; simp only at *; omega) hci
+          rw [hio] at hE
+          have hpost := hE.post (j' := i + ((K.low cc).length + (0 + 1 + ((K.low ct).length + (0 + 1 + 1 + ((K.low ce).length + (0 + 1)))))))
+            (fun a' b' m' io' => by
+              have := step_label K _ _ _ hend a' b' m' io'
+              simpa [Nat.add_assoc] using this)
+          exact hpost.pre (st1.trans sL)
+
+omit wf in
+theorem optStmt_while (ρ : String → Option Word) (c : X.Expr) (b : X.Stmt) :
+    optStmt (annotS ρ (.while c b)) = .while (optExpr (annotate ρ c)) (optStmt (annotS ρ b)) := by
+  simp [annotS, optStmt]
+
+theorem execS_while (fuel : Nat) (c : X.Expr) (body : X.Stmt) (σ : X.St) (hpc : pureE c = true)
+    (ihb : ∀ s, ExecS K exitJ (optStmt (annotS K.ρ body)) s (X.exec fuel K.xc body s))
+    (ihw : ∀ s, ExecS K exitJ (optStmt (annotS K.ρ (.while c body))) s (X.exec fuel K.xc (.while c body) s)) :
+    ExecS K exitJ (optStmt (annotS K.ρ (.while c body))) σ (X.exec (fuel + 1) K.xc (.while c body) σ) := by
+  intro gs code gs' i a b mem hg hat hr hsz hnl hci
+  have hg0 := hg
+  rw [optStmt_while] at hg
+  cases ht : X.tick K.xc σ with
+  | none => unfold X.exec; rw [ht]; trivial
+  | some st =>
+    rw [exec_while fuel K.xc c body σ st ht]
+    have hs := tick_same _ _ _ ht
+    cases hev : asBool "condition of while" (X.eval fuel K.xc c st) with
+    | undef w => trivial
+    | exit cd s => exact absurd hev (asBool_pure_no_exit K.xc _ fuel c st cd s hpc)
+    | ok w s =>
+      simp only
+      obtain ⟨hev', hbw⟩ := asBool_ok _ _ _ _ hev
+      have hs2 := eval_pure K.xc _ _ _ _ _ hpc hev'
+      have hio : s.io = σ.io := by rw [hs2.2.2.2.1, hs.2.2.2.1]
+      have hC := expr_pure_correct K wf.toWF fuel c st w s hpc hev'
+      have hrst := hr.same hs
+      obtain ⟨cc, gs1, cb, h1, h2, hcode⟩ := genStmt_while_inv _ _ _ _ _ _ hg
+      have e2 := genStmt_eff _ _ _ _ _ h2
+      have e1 := genExpr_eff _ _ _ _ _ _ h1
+      have hat0 := hat
+      rw [hcode] at hat
+      simp only [low_append, List.append_assoc] at hat
+      have hlb : K.low [iLabel (lab gs.labelCount)] = [.label .plain (lab gs.labelCount)] := rfl
+      have hbz : K.low [lBRZ (lab (gs.labelCount + 1))] = [.ref 0xA (lab (gs.labelCount + 1)) true] := rfl
+      have hbe : K.low [lBR (lab gs.labelCount), iLabel (lab (gs.labelCount + 1))]
+          = [.ref 0x9 (lab gs.labelCount) true, .label .plain (lab (gs.labelCount + 1))] := rfl
+      rw [hlb, hbz, hbe] at hat
+      have hbegin := hat.head
+      have hbrz := hat.right.right.head
+      have hbr := hat.right.right.right.right.get 0 _ rfl
+      have hend := hat.right.right.right.right.get 1 _ rfl
+      simp only [List.length_cons, List.length_nil, Nat.add_zero] at hbrz hbr hend
+      have hlen : (K.low code).length = 1 + ((K.low cc).length + (1 + ((K.low cb).length + 2))) := by
+        rw [hcode]; simp only [low_append, List.append_assoc, hlb, hbz, hbe, List.length_append, List.length_cons, List.length_nil]
+      have sBegin := step_label K _ _ _ hbegin a b mem σ.io
+      obtain ⟨b1, mem1, st1, rep1⟩ := exec_cond_brz K wf.toWF _ w st hC _ cc gs1 (i + 1) a b mem σ.io _ _ _ h1
+        (by simpa using hat.right.left) (by simpa using hbrz) hend hrst (by have := e2.2.1; omega) hnl (hci.of_eff e2)
+      have rep1s := rep1.same hs2
+      by_cases hw0 : (w == 0) = true
+      · have hw : w = 0 := by simpa using hw0
+        simp only [hw0, if_true]
+        rw [if_pos hw] at st1
+        refine ⟨w, b1, mem1, ?_, rep1s⟩
+        rw [hio]
+        refine sBegin.trans (st1.trans ?_)
+        have := step_label K _ _ _ hend w b1 mem1 σ.io
+        rw [hlen]
+        simpa [Nat.add_assoc] using this
+      · have hw : ¬ w = 0 := by simpa using hw0
+        simp only [hw0, Bool.false_eq_true, if_false]
+        rw [if_neg hw] at st1
+        have hB := ihb s gs1 cb gs' (i + 1 + (K.low cc).length + 1) w b1 mem1 h2
+          (by simpa [Nat.add_assoc] using hat.right.right.right.left) rep1s hsz
+          (by have := e1.1; simp only at this; omega) hci
+        rw [hio] at hB
+        have hpre := sBegin.trans st1
+        cases hxb : X.exec fuel K.xc body s with
+        | undef w' => trivial
+        | exit cd s' =>
+          rw [hxb] at hB
+          exact Out.pre (r := .exit cd s') hpre hB
+        | ok fl s' =>
+          cases fl with
+          | ret w' => trivial
+          | normal =>
+            rw [hxb] at hB
+            simp only
+            obtain ⟨a', b', mem', stB, repB⟩ := hB
+            have sBack := step_br K wf.toWF _ _ _ _ hbr hbegin a' b' mem' s'.io
+            have hW := ihw s' gs code gs' i a' b' mem' hg0 hat0 repB hsz hnl hci
+            refine Out.pre ?_ hW
+            refine hpre.trans (stB.trans ?_)
+            simpa [Nat.add_assoc] using sBack
 
 end
 
